@@ -401,12 +401,31 @@ def _r05_6(res, P, cfgname):
                 # comparison involving digits()/precision, or construction through a rounding ctor
                 S = sym.Sym(fn)
                 cfg = mir.cfg_of(fn["mir"])
-                ok = False
-                for c in guards.constraints_at(S, cfg, i):
-                    if c[0] == 'rel':
-                        txt = sym.term_str(c[2], 300) + " " + sym.term_str(c[3], 300)
-                        if "digits" in txt:
-                            ok = True
+                # validated: every path to the literal uses an edge that establishes
+                # digits <= precision, or precision == 0 (unlimited)
+                cut = set()
+                for a, b, fact in S.edge_facts():
+                    for c in guards.constraints(fact):
+                        if c[0] != 'rel':
+                            continue
+                        A, B_ = sym.term_str(c[2], 300), sym.term_str(c[3], 300)
+                        op = c[1]
+                        if "digits" in A and op in ('Le', 'Lt') and "digits" not in B_:
+                            cut.add((a, b))
+                        if "digits" in B_ and op in ('Ge', 'Gt') and "digits" not in A:
+                            cut.add((a, b))
+                        if op == 'Eq' and ((c[3][0] == 'const' and c[3][1] == 0) or (c[2][0] == 'const' and c[2][1] == 0)) and "digits" not in A + B_:
+                            cut.add((a, b))
+                seen = {0}
+                st = [0]
+                while st:
+                    x = st.pop()
+                    for y in cfg.succ[x]:
+                        if (x, y) in cut or y in seen:
+                            continue
+                        seen.add(y)
+                        st.append(y)
+                ok = bool(cut) and i not in seen
                 if ok:
                     res.ok("R05.6", cfgname, key + "|validated")
                 else:
